@@ -10,6 +10,7 @@ package main
 import (
 	"encoding/json"
 	"fmt"
+	"net/http"
 	"strings"
 	"time"
 )
@@ -19,6 +20,11 @@ type C10Plan struct {
 	Debug      bool     `json:"debug,omitempty"`
 	PresetVary []string `json:"preset_vary,omitempty"` // set by an outer middleware before ours runs
 	Reqs       []Req    `json:"reqs"`                  // arrival order
+	// Edits[i] != "": while serving request i the wrapped application handler
+	// edits the response-header slices it can see IN PLACE (fault F4): such a
+	// response is the handler's own business — it is neither stored nor judged —
+	// but it must not change what LATER requests get.
+	Edits []string `json:"edits,omitempty"` // "" | scribble | delete_origin | zero
 }
 
 type c10 struct{}
@@ -47,7 +53,7 @@ func (c10) Parties() map[string]string {
 	return map[string]string{"cors.Middleware": "real", "shared cache": "model (RFC 9111 4.1 secondary keys)", "clients (attacker/victim)": "stub", "outer middleware setting Vary": "stub", "wrapped handler": "stub (constant)"}
 }
 func (c10) FaultKinds() []string {
-	return []string{"F7_cache_hit_other_request", "F6_duplicate_request_hit"}
+	return []string{"F7_cache_hit_other_request", "F6_duplicate_request_hit", "F4_handler_edits_vary_in_place"}
 }
 func (c10) Probes() []string {
 	return []string{"hit_differs_in_origin", "hit_differs_in_preflight_headers", "hit_differs_in_unrelated_header", "preflight_stored", "preset_vary_checked", "miss_due_to_vary"}
@@ -122,6 +128,13 @@ func (c10) Gen(r *R, tier string) any {
 	if r.P(0.3) {
 		p.Reqs = shuffled(r, p.Reqs)
 	}
+	// in a third of the runs the application handler edits header slices in place on a few early requests
+	if r.P(0.33) {
+		p.Edits = make([]string, len(p.Reqs))
+		for k := r.Range(1, 3); k > 0; k-- {
+			p.Edits[r.Intn(max(1, len(p.Reqs)/2))] = pick(r, []string{"scribble", "delete_origin", "zero"})
+		}
+	}
 	return p
 }
 
@@ -129,6 +142,52 @@ func (c10) Decode(b []byte) (any, error) {
 	var p C10Plan
 	err := json.Unmarshal(b, &p)
 	return &p, err
+}
+
+// editHandler is the application handler of the cachesim world: constant
+// output, but on request it edits the header slices it can reach in place.
+type editHandler struct {
+	mode    *string
+	invoked *int
+	c       *Ctx
+}
+
+func (h editHandler) ServeHTTP(w http.ResponseWriter, _ *http.Request) {
+	*h.invoked++
+	if *h.mode != "" {
+		rh := w.Header()
+		if vs, ok := rh[hVary]; ok && len(vs) > 0 {
+			h.c.hit("F4_handler_edits_vary_in_place")
+		}
+		for k, vs := range rh {
+			switch *h.mode {
+			case "scribble":
+				for i := range vs[:cap(vs)] {
+					vs[:cap(vs)][i] = "Scribbled"
+				}
+			case "zero":
+				for i := range vs {
+					vs[i] = ""
+				}
+			case "delete_origin": // what slices.DeleteFunc(h["Vary"], isOrigin) does: compact in place, zero the tail
+				if k == hVary {
+					n := 0
+					for _, v := range vs {
+						if !strings.EqualFold(v, "Origin") {
+							vs[n] = v
+							n++
+						}
+					}
+					for i := n; i < len(vs); i++ {
+						vs[i] = ""
+					}
+					rh[k] = vs[:n]
+				}
+			}
+		}
+	}
+	w.WriteHeader(200)
+	w.Write([]byte("ok"))
 }
 
 type cacheEntry struct {
@@ -183,7 +242,10 @@ func (c10) Exec(plan any, c *Ctx) *Violation {
 		return nil
 	}
 	m.SetDebug(p.Debug)
-	srv := newServer(m.Wrap)
+	edit := ""
+	invoked := 0
+	hh := m.Wrap(editHandler{&edit, &invoked, c})
+	srv := &mwServer{h: hh}
 	var preset []HV
 	if len(p.PresetVary) > 0 {
 		preset = []HV{{hVary, p.PresetVary}}
@@ -191,7 +253,15 @@ func (c10) Exec(plan any, c *Ctx) *Violation {
 	var cache []cacheEntry
 	for i, q := range p.Reqs {
 		// origin fetch (on a hit: the shadow fetch)
-		resp := srv.doPreset(q, preset)
+		edit = ""
+		if i < len(p.Edits) {
+			edit = p.Edits[i]
+		}
+		resp := serveWith(srv.h, q, preset, &invoked)
+		if edit != "" && resp.Handler > 0 {
+			c.logf("#%d EDIT %s: handler edited response-header slices in place (%s); response neither stored nor judged", i, q, edit)
+			continue
+		}
 		if resp.Panic != "" {
 			return &Violation{Class: "panic", Key: "serve", Detail: q.String() + ": " + resp.Panic}
 		}
@@ -256,12 +326,23 @@ func (c10) Shrink(plan any) []any {
 	for i := len(p.Reqs) - 1; i >= 0; i-- {
 		q := *p
 		q.Reqs = append(append([]Req{}, p.Reqs[:i]...), p.Reqs[i+1:]...)
+		if i < len(p.Edits) {
+			q.Edits = append(append([]string{}, p.Edits[:i]...), p.Edits[i+1:]...)
+		}
 		out = append(out, &q)
 	}
 	if p.Debug {
 		q := *p
 		q.Debug = false
 		out = append(out, &q)
+	}
+	for i, e := range p.Edits {
+		if e != "" {
+			q := *p
+			q.Edits = append([]string{}, p.Edits...)
+			q.Edits[i] = ""
+			out = append(out, &q)
+		}
 	}
 	if len(p.PresetVary) > 0 {
 		q := *p
